@@ -6,6 +6,7 @@
 From RV Require Import Model.Base Model.RenderPrims Gen.Consts Gen.LeafFit Gen.LeafRender Model.Render.
 From RV Require Import Proofs.Render.
 From RV Require Import Gen.LeafMorph Model.Morph Proofs.Morph.
+From RV Require Import Gen.LeafTurb Model.Turb Proofs.Turb.
 Local Open Scope Z_scope.
 
 (* geom::fit_to_rect is the intersection *)
@@ -72,6 +73,25 @@ Theorem C02_morphology_window_bounded : forall rx ry w h, 0 <= w -> 0 <= h ->
   0 <= morph_columns rx w <= w /\ 0 <= morph_rows ry h <= h /\ 0 <= morph_ops rx ry w h <= (w * h) * (w * h).
 Proof. exact morph_ops_bounded. Qed.
 Print Assumptions C02_morphology_window_bounded.
+
+(* feTurbulence: the integer arithmetic a document can push to the edge of i32 (source-derived Gen/LeafTurb.v lists every
+   intermediate result as an unbounded integer; "in i32" = no overflow panic in debug, no silent wrap in release).
+   seed: every i32 seed <= 0 (incl. i32::MIN) is normalised without leaving the range, into [1, RAND_M - 1] *)
+Theorem C02_turbulence_seed_in_range : forall seed, I32_MIN <= seed <= 0 ->
+  Forall i32P (turb_seed_steps seed) /\ 1 <= turb_seed_norm seed <= 2147483646.
+Proof. exact turb_seed_ok. Qed.
+Print Assumptions C02_turbulence_seed_in_range.
+
+(* stitchTiles: the per-octave update of the stitch box stays in range from any state, i.e. for any numOctaves *)
+Theorem C02_turbulence_stitch_in_range : forall w x h y, i32P w -> i32P x -> i32P h -> i32P y ->
+  Forall i32P (turb_stitch_steps w x h y) /\
+  (let '(w', x', h', y') := turb_stitch_next w x h y in i32P w' /\ i32P x' /\ i32P h' /\ i32P y').
+Proof. exact turb_stitch_ok. Qed.
+Print Assumptions C02_turbulence_stitch_in_range.
+
+Theorem C02_turbulence_wrap_in_range : forall b w, i32P b -> i32P w -> Forall i32P (turb_wrap_steps b w).
+Proof. exact turb_wrap_ok. Qed.
+Print Assumptions C02_turbulence_wrap_in_range.
 
 (* ------------------------------------------------------------------ non-vacuity *)
 (* a translucent group half outside a 100x100 canvas gets a layer *)
